@@ -996,6 +996,13 @@ func xFalls(ss []ast.Stmt) bool {
 	switch s := ss[len(ss)-1].(type) {
 	case *ast.ReturnStmt:
 		return false
+	case *ast.ExprStmt:
+		if c, ok := s.X.(*ast.CallExpr); ok {
+			if id, ok := c.Fun.(*ast.Ident); ok && id.Name == "panic" {
+				return false
+			}
+		}
+		return true
 	case *ast.BlockStmt:
 		return xFalls(s.List)
 	case *ast.IfStmt:
@@ -1158,6 +1165,13 @@ func (x *xl) stmt(s ast.Stmt, rest func() string, d int) string {
 		}
 		if inv := x.stCall(s.X, &g); inv != nil {
 			return x.stBind(s, inv, nil, false, g, rest, d)
+		}
+		if c, ok := s.X.(*ast.CallExpr); ok { // panic(...)
+			if id, ok := c.Fun.(*ast.Ident); ok && id.Name == "panic" {
+				if _, isB := x.info.ObjectOf(id).(*types.Builtin); isB {
+					return "Panic"
+				}
+			}
 		}
 		x.fail(s, "expression statement %s is outside the subset", x.src(s))
 	case *ast.IncDecStmt:
